@@ -269,6 +269,12 @@ func initContainer(c containerConfig) error {
 }
 
 func initFileSystem(c containerConfig) error {
+	// detach the mount namespace from the mount propagation of the host, as the
+	// raw mount sequence of pkg/forkexec does: file systems mounted on the host
+	// later must not show up below the bind mounts of the container
+	if err := syscall.Mount("", "/", "", syscall.MS_REC|syscall.MS_PRIVATE, ""); err != nil {
+		return fmt.Errorf("init_fs: make / private: %w", err)
+	}
 	// mount tmpfs as root
 	const tmpfs = "tmpfs"
 	if err := syscall.Mount(tmpfs, c.ContainerRoot, tmpfs, 0, ""); err != nil {
